@@ -801,6 +801,20 @@ class Raises:
         if base in METHOD_RAISES:
             kind = name.split('.')[0]
             excs = METHOD_RAISES[base]
+            if base == 'encode':
+                # str.encode with a codec that cannot represent every str
+                codec = None
+                if call.args and isinstance(call.args[0], ast.Constant):
+                    codec = call.args[0].value
+                for k in call.keywords:
+                    if k.arg == 'encoding' and isinstance(k.value,
+                                                          ast.Constant):
+                        codec = k.value.value
+                if (call.args or call.keywords) and (
+                        not isinstance(codec, str) or
+                        codec.lower().replace('_', '-') not in (
+                            'utf-8', 'utf8', 'utf-16', 'utf-32')):
+                    excs = {'UnicodeEncodeError'}
             if base == 'pop':
                 if kind == 'dict':
                     excs = {'KeyError'} if len(call.args) < 2 else set()
